@@ -2,6 +2,7 @@ import Moclo.Model.Assembly
 import Moclo.Model.Cache
 import Moclo.Model.Registry
 import Moclo.Model.Directory
+import Moclo.Model.ThreePrime
 /-!
 # Line protocol of the correspondence check
 
@@ -214,6 +215,20 @@ def step (line : String) : String :=
         tab ["ok", showNats m.marks, showWord (m.group w c.upGroup), showWord (m.group w c.downGroup),
              showWord t.seq, showFeatures t.feats,
              (match kind with | .vector => showWord (m.group w 1 ++ m.group w 2) | .module => "-")]
+    | _, _, _, _, _, _, _ => "bad-op"
+  | ["EVAL3", kind, pat, site, off, k, w, feats] =>
+    -- a class over a cutter leaving a 3' overhang (`off` = fst3, `k` = overhang length)
+    match parseKind kind, parsePat pat, parseNts site, off.toNat?, k.toNat?, parseWord w, parseFeatures feats with
+    | some kind, some p, some site, some off, some k, some w, some fs =>
+      let c : ClassSpec := { kind := kind, pat := p, geom := { site := site, off := off, k := k } }
+      let r : Rec := { rid := 0, seq := w, feats := fs, refs := [] }
+      match c.matchSeq3 w with
+      | .error e => showErr e
+      | .ok m =>
+        let t := c.targetOf3 r m
+        tab ["ok", showNats m.marks, showWord (m.group w c.upGroup), showWord (m.group w c.downGroup),
+             showWord t.seq, showFeatures t.feats,
+             (match kind with | .vector => showWord (m.group w 2 ++ m.group w c.upGroup) | .module => "-")]
     | _, _, _, _, _, _, _ => "bad-op"
   | ["GRAPH", vup, vdown, mods] =>
     match parseWord vup, parseWord vdown, (splitList "," mods).mapM parseGMod with
